@@ -310,6 +310,13 @@ PROBE_CHUNK_VAR = "P() { printf 'pos:\\t%s\\n' $__POS; }"
 KNOWN_CASE = "case_pattern_in_cmdsubst"
 
 
+UCHARS = [("2byte", "\u00e9"), ("3byte", "\u65e5"), ("4byte", "\U0001F600"), ("combining", "e\u0301")]
+
+
+def needs_extglob(feats):
+    return any(f.startswith("u_xg_") for f in feats)
+
+
 class G:
     """Generates top-level items (lists of lines). Tags are unique per program so outputs identify their source."""
 
@@ -382,6 +389,69 @@ class G:
             ("case_in_cmdsub_paren", ["v=$(case x in (x) echo cp%d;; esac); echo $v; P" % t]),
         ]
 
+    # two recorded brush defects that show as a delivery difference (file/-c/source/eval vs standard input)
+    def known_leaves(self):
+        t = self.tag()
+        return [
+            ("paren_paren_heredoc", ["((echo np%d) | cat)" % t, "cat <<E", "body%d" % t, "E", "P"]),
+            ("stray_break", ["break 2>/dev/null", "echo sb%d $LINENO; P" % t]),
+        ]
+
+    def uleaves(self, full):
+        """Every construct that is incomplete at the tokenizer level at a line break, with a non-ASCII character
+        (2, 3, 4 bytes, and a combining mark) before the open token on its line, inside it, after it, on an earlier
+        line, or in a comment line before it; grammar-level constructs as controls. `full`: every character in every
+        position; otherwise a Latin square (every construct sees every character, every position every character)."""
+        t = self.tag()
+        out = []
+        cons = [
+            ("sq", lambda a, i, z: ["echo %s 'u%d%s" % (a, t, i), "second'%s; P" % z]),
+            ("dq", lambda a, i, z: ['echo %s "u%d%s' % (a, t, i), 'second"%s; P' % z]),
+            ("dsq", lambda a, i, z: ["echo %s $'u%d%s\\n" % (a, t, i), "x'%s; P" % z]),
+            ("heredoc", lambda a, i, z: ["echo h%d %s; cat <<E; echo %s" % (t, a, z), "u%d%s body $LINENO" % (t, i), "E", "P"]),
+            ("heredoc_q", lambda a, i, z: ["echo h%d %s; cat <<'E'; echo %s" % (t, a, z), "u%d%s body $x" % (t, i), "E", "P"]),
+            ("heredoc_dash", lambda a, i, z: ["echo h%d %s; cat <<-E; echo %s" % (t, a, z), "\tu%d%s body" % (t, i), "\tE", "P"]),
+            ("cmdsub", lambda a, i, z: ["echo %s $(echo u%d%s" % (a, t, i), "echo b)%s; P" % z]),
+            ("dq_cmdsub", lambda a, i, z: ['echo %s "$(echo u%d%s' % (a, t, i), 'echo b)"%s; P' % z]),
+            ("backquote", lambda a, i, z: ["echo %s `echo u%d%s" % (a, t, i), "`%s; P" % z]),
+            ("arith", lambda a, i, z: ["echo u%d %s $(( 1 +" % (t, a), "2 ))%s; P" % z]),
+            ("brace", lambda a, i, z: ["echo %s ${nov%d:-d%s" % (a, t, i), "}x%s; P" % z]),
+            ("xg_case", lambda a, i, z: ["echo %s; case ab in @(ab|%sq" % (a, i), "zz)) echo u%d %s;; esac; P" % (t, z)]),
+            ("xg_echo", lambda a, i, z: ["echo u%d %s +(a|%s" % (t, a, i), "b)%s | tr '\\n' ' '; echo; P" % z]),
+        ]
+        positions = ["pretok", "in", "post", "preline", "comment"]
+        for ci, (cn, f) in enumerate(cons):
+            for pi, pos in enumerate(positions):
+                if cn == "arith" and pos == "in":
+                    continue
+                for ki, (kn, ch) in enumerate(UCHARS):
+                    if not full and ki != (ci + pi) % len(UCHARS):
+                        continue
+                    if pos == "pretok":
+                        ls = f(ch, "", "")
+                    elif pos == "in":
+                        ls = f("", ch, "")
+                    elif pos == "post":
+                        ls = f("", "", ch)
+                    elif pos == "preline":
+                        ls = ["echo pl%d %s" % (t, ch)] + f("", "", "")
+                    else:
+                        ls = ["# comm%snt %d" % (ch, t)] + f("", "", "")
+                    out.append(("u_%s_%s_%s" % (cn, pos, kn), ls))
+        ctl = [
+            ("g_if", lambda ch: ["if echo u%d %s" % (t, ch), "then", "echo %s; P" % ch, "fi"]),
+            ("g_and", lambda ch: ["echo u%d %s &&" % (t, ch), "echo %s; P" % ch]),
+            ("g_pipe", lambda ch: ["echo u%d %s |" % (t, ch), "cat; P"]),
+            ("g_for", lambda ch: ["for ux%d in %s b" % (t, ch), "do", "echo $ux%d" % t, "done; P"]),
+            ("g_cont", lambda ch: ["echo u%d %s \\" % (t, ch), "%s; P" % ch]),
+            ("g_one", lambda ch: ["echo u%d '%s' \"%s\" $(echo %s) %s; P" % (t, ch, ch, ch, ch)]),
+        ]
+        for ci, (cn, f) in enumerate(ctl):
+            for ki, (kn, ch) in enumerate(UCHARS):
+                if full or ki == ci % len(UCHARS):
+                    out.append(("u_%s_%s" % (cn, kn), f(ch)))
+        return out
+
     def defect_leaf(self):
         t = self.tag()
         self.feats.add(KNOWN_CASE)
@@ -413,8 +483,8 @@ def indent(lines, rng):
     return lines
 
 
-def finish(lines, probe, last=None):
-    body = [probe] + lines + ([last] if last else [])
+def finish(lines, probe, last=None, feats=()):
+    body = [probe] + (["shopt -s extglob"] if needs_extglob(feats) else []) + lines + ([last] if last else [])
     return "\n".join(body) + "\n"
 
 
@@ -431,7 +501,8 @@ def gen_random(rng, depth=0):
             return w(body)
         if r > 0.985:
             return g.defect_leaf()
-        ls = g.leaves()
+        r2 = rng.random()
+        ls = g.uleaves(False) if r2 < 0.25 else g.known_leaves() if r2 < 0.28 else g.leaves()
         nm, body = rng.choice(ls)
         g.feats.add(nm)
         return list(body)
@@ -443,17 +514,29 @@ def gen_random(rng, depth=0):
     return lines, last, g.feats
 
 
-def gen_exhaustive(level):
-    """Every leaf under every wrapper (level 1); every leaf followed by every leaf at top level (level 2)."""
+def gen_exhaustive(level, full=False):
+    """Every leaf (ASCII, recorded-defect, non-ASCII) under every wrapper (level 1); every ASCII leaf followed by
+    every ASCII leaf at top level (level 2)."""
     out = []
     g = G()
     nl, nw = len(g.leaves()), len(g.wrappers())
+    nu, nk = len(g.uleaves(full)), len(g.known_leaves())
     for wi in range(nw):
         for li in range(nl):
             g = G()
             w = g.wrappers()[wi]
             l = g.leaves()[li]
             out.append((("exh1", w[0], l[0]), w[1](list(l[1])), "echo end $? $LINENO", {l[0]}))
+        for li in range(nk):
+            g = G()
+            w = g.wrappers()[wi]
+            l = g.known_leaves()[li]
+            out.append((("exh1", w[0], l[0]), w[1](list(l[1])), "echo end $? $LINENO", {l[0]}))
+        for li in range(nu):
+            g = G()
+            w = g.wrappers()[wi]
+            l = g.uleaves(full)[li]
+            out.append((("exhu", w[0], l[0]), w[1](list(l[1])), "echo end $? $LINENO", {l[0]}))
     g = G()
     out.append((("exh1", "top", "defect"), g.defect_leaf(), None, set(g.feats)))
     g = G()
@@ -638,7 +721,7 @@ def acc_all(texts):
 def check_chunks(ctx, progs):
     """`as soon as, and only when`: brush's real reader vs the model vs bash's own reading positions."""
     lim = Lim(ctx)
-    texts = [finish(p["lines"], PROBE_BASH_POS, p["last"]) for p in progs]
+    texts = [finish(p["lines"], PROBE_BASH_POS, p["last"], p["feats"]) for p in progs]
     okh, errs, bch, mch, tables = acc_all(texts)
     if not okh:
         ctx.broken.append("harness c15 died: " + errs[:400])
@@ -664,10 +747,24 @@ def check_chunks(ctx, progs):
         elif why:
             if KNOWN_CASE in p["feats"]:
                 ctx.known_or_violation(KNOWN_CASE, why, case)
+            elif "paren_paren_heredoc" in p["feats"]:
+                # inside one chunk the here-document after `((cmd) | cmd)` is not recognised: its body is read as commands
+                ctx.known_or_violation("double_paren_subshell_breaks_later_heredoc", why, case)
             else:
                 lim.violation(why, case)
     lim.flush()
     ctx.sample({"family": "chunks", "text": texts[len(texts) // 2], "brush_chunks": bch[len(texts) // 2]})
+
+
+# recorded defects that show as a delivery difference: (leaf that triggers it, clause, text)
+KNOWN_DELIVERY = [
+    ("paren_paren_heredoc", "double_paren_subshell_breaks_later_heredoc",
+     "after `((cmd) | cmd)` (a subshell written with two adjacent parentheses) a later here-document in the same parsed text "
+     "is not recognised; on standard input the next command is tokenised afresh and works"),
+    ("stray_break", "stray_break_aborts_rest_of_text",
+     "a `break` outside any loop abandons the rest of the text parsed with it (file, -c, source, eval), while on standard "
+     "input only its own command; bash reports `only meaningful in a loop` and carries on"),
+]
 
 
 PROBE_LINE = re.compile(r"echo (L\d+|mid|end)( \$\?)? \$LINENO")
@@ -701,7 +798,7 @@ def lineno_tie(ctx, lim, p, t, r, bc, mc, mo):
 
 def check_delivery(ctx, progs):
     lim = Lim(ctx)
-    texts = [finish(p["lines"], PROBE_DELIVERY, p["last"]) for p in progs]
+    texts = [finish(p["lines"], PROBE_DELIVERY, p["last"], p["feats"]) for p in progs]
     res = lib.pmap(deliver, texts)
     okh, errs, bch, mch, tables = acc_all(texts)
     moff = acc_all.offsets
@@ -717,11 +814,21 @@ def check_delivery(ctx, progs):
         case = {"family": "deliver", "text": t, "feats": sorted(p["feats"]), "brush": bm, "bash": am, "brush_stderr": br["file"][2]}
         if len(set(am.values())) > 1:
             ctx.oracle_mismatch += 1        # the generator left the domain where bash itself is delivery independent
+            ctx.bucket("deliver_bash_modes_differ")
+            ctx.notes.append("bash modes differ: " + repr(t)[:300]) if len(ctx.notes) < 5 else None
             continue
         ref = am["file"]
         if KNOWN_CASE in p["feats"]:
             if any(bm[m] != ref for m in MODES):
                 ctx.known_or_violation(KNOWN_CASE, "brush rejects a program bash accepts (unparenthesised case pattern inside $( ))", case)
+            continue
+        hit = False
+        for feat, clause, what in KNOWN_DELIVERY:
+            if feat in p["feats"] and any(bm[m] != ref for m in MODES):
+                ctx.known_or_violation(clause, what, case)
+                hit = True
+                break
+        if hit:
             continue
         if len(set(bm.values())) > 1:
             lim.violation("the same program gives different output/status/$LINENO depending on how it is delivered", case)
@@ -751,10 +858,12 @@ def gen_invalid(rng, nrandom):
                 out.append((("inv", len(h), o[0] if o else "", b), h + o + [b] + ["echo after"], len(h) + len(o) + 2))
     for i in range(nrandom):
         lines, last, feats = gen_random(rng)
-        if KNOWN_CASE in feats:
+        if KNOWN_CASE in feats or "paren_paren_heredoc" in feats:
             continue
         o = rng.choice(OPENS) + rng.choice(OPENS)
         b = rng.choice(BAD_LINES)
+        if needs_extglob(feats):
+            lines = ["shopt -s extglob"] + lines
         out.append((("invr", i), lines + o + [b, "echo after"], len(lines) + len(o) + 2))
     return out
 
@@ -990,14 +1099,15 @@ def run(ctx):
         return
     rng = ctx.rng
     corpus = load_corpus()
-    exh1 = [{"key": k, "lines": l, "last": last, "feats": f} for k, l, last, f in gen_exhaustive(1)]
+    exh1 = [{"key": k, "lines": l, "last": last, "feats": f} for k, l, last, f in gen_exhaustive(1, full=not ctx.quick)]
     exh2 = [{"key": k, "lines": l, "last": last, "feats": f} for k, l, last, f in gen_exhaustive(2) if k[0] == "exh2"]
     rnd = []
     for i in range(ctx.size(400, 6000)):
         l, last, f = gen_random(rng)
         rnd.append({"key": ("rand", i), "lines": l, "last": last, "feats": f})
     # the reader: everything (cheap: in-process harness + two bash runs)
-    check_chunks(ctx, corpus + exh1 + exh2 + rnd)
+    exh2c = exh2 if not ctx.quick else [exh2[i] for i in sorted(rng.sample(range(len(exh2)), 2000))]
+    check_chunks(ctx, corpus + exh1 + exh2c + rnd)
     # delivery modes: 10 processes per program
     nd = ctx.size(100, 3000)
     sub2 = exh2 if not ctx.quick else [exh2[i] for i in sorted(rng.sample(range(len(exh2)), 60))]
@@ -1012,7 +1122,9 @@ def run(ctx):
     check_cache_inproc(ctx, ctx.size(150, 3000), ctx.size(40, 150))
     check_cache_exec(ctx, ctx.size(60, 1500))
     ctx.cov["rule"] = ("programs = every leaf construct (simple, status, continuation, here-document, comment, blank, multi-line "
-                       "quote/substitution, operator at end of line, ...) under every wrapper (if/for/while/until/case/function/"
+                       "quote/substitution, operator at end of line, ...; every tokenizer-level multi-line construct with a 2-, 3-, "
+                       "4-byte or combining character before / inside / after the open token, on an earlier line or in a comment; "
+                       "grammar-level controls) under every wrapper (if/for/while/until/case/function/"
                        "group/subshell/pipeline), every ordered pair of leaves, plus seeded random nestings; each delivered as "
                        "file, -c, source, eval and standard input to brush and bash; brush's real read_line loop on each text vs "
                        "the model vs bash's own read positions; invalid lines after every head/opened construct; parse histories "
